@@ -148,6 +148,8 @@ def document_level(ctx, depth):
     from kernpy.core.tokens import TokenCategory as TC
     from kernpy.core.tokenizers import Encoding
     cases = docrun.make_cases(ctx, 12 if depth == 'quick' else 150)
+    import gen as _gen
+    cases += docrun.make_cases(ctx, 0, docs=[_gen.clef_echo_doc(ctx.rng) for _ in range(3 if depth == 'quick' else 30)])
     combos = []
     for enc in ENCS:
         combos.append({'enc': enc, 'include': None, 'exclude': None})
